@@ -34,7 +34,7 @@ class C11(BaseCheck):
              'scales.kafka.sink:KafkaTransportSink._ProcessReply')
   REQUIRED_ANCHORS = ANCHORS
   REQUIRED_CLASSES = ('thriftmux', 'kafka', 'adv:duplicate-reply', 'adv:unknown-tag', 'adv:reserved-tag-1',
-                      'adv:tag-0', 'adv:huge-tag', 'adv:bitflip-tag', 'kafka:timeouts', 'tagpool:exhausted', 'tagpool:get-after-refusal', 'timeout-before-send', 'timeout-after-send', 're-open',
+                      'adv:tag-0', 'adv:huge-tag', 'adv:bitflip-tag', 'error-frame-replies', 'kafka:timeouts', 'tagpool:exhausted', 'tagpool:get-after-refusal', 'timeout-before-send', 'timeout-after-send', 're-open',
                       'tag-reuse')
   ASSUMPTIONS = ('a tag counts as answered when the client has read the last byte of any R-frame carrying it '
                  '(known from the simulated socket\'s read offsets)',)
@@ -253,12 +253,18 @@ class C11(BaseCheck):
     conc = rng.choice([1, 3, 8, 20, 40])
     ncalls = rng.choice([20, 60, 150]) if tier == 'quick' else rng.choice([20, 60, 150, 400])
     plan_mode = rng.choice(['fast', 'reorder', 'mixed'])
+    err_replies = rng.random() < 0.3
+    if err_replies and plan_mode != 'fast':
+      classes.add('error-frame-replies')
 
     class Policy(servers.DefaultPolicy):
       def __call__(self, server, conn, req):
         k = rng.random()
         if plan_mode == 'fast':
           return {'delay': 0.0005}
+        if err_replies and rng.random() < 0.35:
+          # the peer answers the tag with an error frame (Rerr, or its legacy encoding, type 127)
+          return {'delay': rng.choice([0.0005, 0.002, 0.01]), 'as': rng.choice(['rerr', 'bad_rerr'])}
         if plan_mode == 'reorder' or k < 0.7:
           return {'delay': rng.choice([0.0005, 0.002, 0.01, 0.05]) * (0.3 + rng.random())}
         if k < 0.85:
